@@ -176,7 +176,23 @@ def run_C17(run):
                       CHECKER)
 
 
-TABLE = {"C02": run_C02, "C10": run_C10, "C08": run_C08, "C17": run_C17}
+# ------------------------------------------------------------------------------------------ C12
+def run_C12(run):
+    stats = [run.build_trace("tr_C12", "Gen_C12")]
+    trace_cov(run, stats)
+    gens = [os.path.join(run.dir, "Gen_C12.v")] if stats[0] else []
+    run.prove(gens, [], ["C12/P_C12.v", "C12/P_C12_b.v"], "C12/Properties_C12.v")
+    fails = oracle_sweep(run, "C12", [("all", [])], run.tier)
+    run.fails = run.triage(fails)
+    run.assumptions = ["identities are over the exact real value of the traced float expressions (sqrt = real square root); 'within rounding' is exercised by the oracle only",
+                       "gtx orthonormalize / angle / orientedAngle / closestPointOnLine / triangleNormal / l1-l2-lMax norms are traced but have no theorem yet (oracle / trace self-validation only)",
+                       "double shares the template code (oracle only)"]
+    return run.finish(TRUST_COMMON + ["oracle_C12.cpp: long-double references on tiny/huge/axis-aligned/integer/generic vectors (violation search only)"],
+                      "theorems: all component values (symbolic), lengths 1-4 enumerated, scalar overloads included; oracle: 5 vector classes x lengths x float/double",
+                      CHECKER)
+
+
+TABLE = {"C02": run_C02, "C10": run_C10, "C08": run_C08, "C17": run_C17, "C12": run_C12}
 
 
 def replay(pid, path):
